@@ -138,6 +138,17 @@ structure Rule where
   assigned : Nat := 0
   deriving Repr, BEq, DecidableEq, Inhabited
 
+/-- the length limits of modules/iauth.h (NICKLEN, USERLEN, HOSTLEN, REALLEN, ACCOUNTLEN,
+    CLASSLEN); regenerated from the header on every run and handed to the driver -/
+structure Limits where
+  nick : Nat := 30
+  user : Nat := 10
+  host : Nat := 63
+  real : Nat := 50
+  account : Nat := 64
+  cls : Nat := 63
+  deriving Repr, BEq, DecidableEq, Inhabited
+
 structure Stats where
   reqAllocs : Nat := 0
   reqFrees : Nat := 0
@@ -162,6 +173,7 @@ structure State where
   stats : Stats := {}
   cleanExit : Bool := false
   inbuf : Bytes := []
+  lim : Limits := {}
   deriving Repr, BEq, Inhabited
 
 /-- `iauth_flags` after `calc_iauth_flags` -/
@@ -214,6 +226,7 @@ structure Ctx where
   stats : Stats
   out : List Bytes := []       -- in emission order
   gone : Bool := false         -- request removed (verdict)
+  lim : Limits := {}
   deriving Repr, Inhabited
 
 def Ctx.emit (c : Ctx) (l : Bytes) : Ctx := { c with out := c.out ++ [l] }
@@ -257,7 +270,7 @@ def ruleMatches (svcs : List (Option Svc)) (rule : Rule) (r : Req) : Bool :=
   (match rule.hostname with | some p => glob p r.hostname | none => true) &&
   (match rule.xreplyOk with | some sname => xreplyOk svcs r sname > 0 | none => true)
 
-/-- `strlcpy(req->class, …, CLASSLEN)` with CLASSLEN = 63 -/
-def strlcpy63 (s : Bytes) : Bytes := s.take 62
+/-- `strlcpy(req->class, …, CLASSLEN)`: at most CLASSLEN - 1 bytes -/
+def strlcpyN (n : Nat) (s : Bytes) : Bytes := s.take (n - 1)
 
 end Iauthd.Proto
